@@ -237,8 +237,27 @@ impl Sub for App { fn same(&self) -> i32 { 2 } }
 pub struct T1;
 #[::entrait::entrait] impl InvImpl for T1 { pub fn inv<D>(deps: &D, a: i32) -> i32 { a + 6 } }
 impl DelegateInv<Self> for App { type Target = T1; }
+// custom selector traits named like things the macro refers to: `delegate_by = <name>` generates a trait of that name
+pub mod sel_asref {
+    #[::entrait::entrait(InvImpl, delegate_by = AsRef)] pub trait Inv { fn inv(&self, a: i32) -> i32; }
+    pub struct T; #[::entrait::entrait] impl InvImpl for T { pub fn inv<D>(deps: &D, a: i32) -> i32 { a + 10 } }
+    impl AsRef<Self> for super::App { type Target = T; }
+}
+pub mod sel_send {
+    #[::entrait::entrait(InvImpl, delegate_by = Send)] pub trait Inv { fn inv(&self, a: i32) -> i32; }
+    pub struct T; #[::entrait::entrait] impl InvImpl for T { pub fn inv<D>(deps: &D, a: i32) -> i32 { a + 20 } }
+    impl Send<Self> for super::App { type Target = T; }
+}
+pub mod sel_impl {
+    #[::entrait::entrait(InvImpl, delegate_by = Impl)] pub trait Inv { fn inv(&self, a: i32) -> i32; }
+    pub struct T; #[::entrait::entrait] impl InvImpl for T { pub fn inv<D>(deps: &D, a: i32) -> i32 { a + 30 } }
+    impl Impl<Self> for super::App { type Target = T; }
+}
 pub fn run() {
     let app = ::entrait::Impl::new(App { k: 3 });
+    ::vrt::phase("sel_asref"); let r = sel_asref::Inv::inv(&app, 1); ::vrt::result(&r);
+    ::vrt::phase("sel_send"); let r = sel_send::Inv::inv(&app, 1); ::vrt::result(&r);
+    ::vrt::phase("sel_impl"); let r = sel_impl::Inv::inv(&app, 1); ::vrt::result(&r);
     ::vrt::phase("free"); let r = FnTr::free(&app, 1); ::vrt::result(&r);
     ::vrt::phase("in_mod"); let r = ModTr::in_mod(&app, 1); ::vrt::result(&r);
     ::vrt::phase("leaf"); let r = Leaf::leaf(&app, 1); ::vrt::result(&r);
@@ -251,7 +270,7 @@ pub fn run() {
     ::vrt::phase("inv"); let r = Inv::inv(&app, 1); ::vrt::result(&r);
 }
 """
-NO_PRELUDE_EXPECT = ["2", "3", "4", "40", "5", "41", "6", "2", "7"]
+NO_PRELUDE_EXPECT = ["11", "21", "31", "2", "3", "4", "40", "5", "41", "6", "2", "7"]
 
 MARKER_NAMED = """
 %s
